@@ -1,7 +1,8 @@
 (* C08 — time-window slicing and trial tensors select exactly the windowed samples.
    Statements only; proofs in Proofs/SliceProofs.v.  np.searchsorted is characterised as a count
-   (NumPy's contract on a sorted array).  warp_tensor is PARTIAL: equal bins when num_bins divides
-   the trial duration in ticks. *)
+   (NumPy's contract on a sorted array).  warp_tensor: equal bins exactly when num_bins divides
+   the trial duration in ticks (C08_warp_equal_bins_when_divides); refuted otherwise (C08_warp_*_refuted).
+   "time support unchanged": holds when the window selects something, refuted for an empty selection. *)
 From Verif Require Import Base.Prelude Model.Restrict Model.Count Model.Slice Proofs.SliceProofs.
 
 (* 1. get(start, end) / get_slice(start, end): exactly the samples with start <= t <= end
@@ -68,3 +69,76 @@ Example C08_nonvacuous :
   sortedZ [0; 1; 1; 2; 3; 3; 4] /\ get_range 1 3 [0; 1; 1; 2; 3; 3; 4] = (1%nat, 6%nat)
   /\ get_closest 5 [0; 1; 1; 2; 3; 3; 4] = 6%nat.
 Proof. vm_compute. intuition congruence. Qed.
+
+(* ---------------- additions (audit round): the clauses the theorems above did not state ---------------- *)
+
+(* 1b. "(time support unchanged)".  get(start, end) is self[slice]; the new object is built by _Base.__init__ with the
+       parent's time support passed explicitly, and that constructor keeps an explicit support only when at least one
+       timestamp is left (base_class.py: `if len(self.index): ... else: self.time_support = IntervalSet([], [])`);
+       C03's statement reads that as intended for restrict ("or empty when no sample survives"), C08's does not for get. *)
+Definition base_support (ts : list Z) (sup : iset) : iset := match ts with [] => [] | _ => sup end.
+Definition get_support (a b : Z) (ts : list Z) (sup : iset) : iset := base_support (get_times a b ts) sup.
+
+Theorem C08_support_unchanged_nonempty : forall a b ts sup, get_times a b ts <> [] -> get_support a b ts sup = sup.
+Proof. intros a b ts sup H. unfold get_support, base_support. destruct (get_times a b ts); congruence. Qed.
+Print Assumptions C08_support_unchanged_nonempty.
+
+(* the clause as the statement has it (for every window) is FALSE of this constructor: a window selecting nothing *)
+Theorem C08_support_unchanged_refuted : exists a b ts sup,
+  sortedZ ts /\ ts <> [] /\ a <= b /\ get_support a b ts sup <> sup.
+Proof. exists 4, 5, [0; 1; 2; 3], [(-5, 10)]. vm_compute. intuition congruence. Qed.
+Print Assumptions C08_support_unchanged_refuted.
+
+(* 5b. warp_tensor of timestamps, exactly.  The statement: counting in num_bins EQUAL bins per trial, i.e. bin j of
+       trial [s, e] holds the samples t of the trial with  s + j(e-s)/k <= t < s + (j+1)(e-s)/k  (count's half-open bins),
+       stated without division: *)
+Definition warp_bin_of (s e : Z) (k j : nat) (t : Z) : bool :=
+  (Z.of_nat j * (e - s) <=? Z.of_nat k * (t - s)) && (Z.of_nat k * (t - s) <? (Z.of_nat j + 1) * (e - s)).
+Definition warp_spec (ts : list Z) (s e : Z) (k : nat) : list nat :=
+  map (fun j => count_if (fun t => inb t (s, e) && warp_bin_of s e k j t) ts) (seq 0 k).
+(* the code: count(bin_size = (e - s) / num_bins, ep = [s, e]) where count rounds the bin size to a whole tick *)
+Definition warp_bin_size (s e : Z) (k : nat) : Z := (2 * (e - s) + Z.of_nat k) / (2 * Z.of_nat k).
+Definition warp_model (ts : list Z) (s e : Z) (k : nat) : list nat :=
+  map snd (count_spec_interval ts s e (warp_bin_size s e k)).
+
+Lemma count_if_ext_all {A} (p q : A -> bool) l : (forall x, p x = q x) -> count_if p l = count_if q l.
+Proof. intros H. induction l as [|x r IH]; [reflexivity|]. cbn [count_if]. rewrite H, IH. reflexivity. Qed.
+
+Lemma warp_bin_size_divides s e b k : (0 < k)%nat -> e - s = Z.of_nat k * b -> warp_bin_size s e k = b.
+Proof.
+  intros Hk Hd. unfold warp_bin_size. rewrite Hd.
+  replace (2 * (Z.of_nat k * b) + Z.of_nat k) with (Z.of_nat k + b * (2 * Z.of_nat k)) by ring.
+  rewrite Z.div_add by lia. rewrite Z.div_small by lia. lia.
+Qed.
+
+Theorem C08_warp_equal_bins_when_divides : forall ts s e b k, 0 < b -> (0 < k)%nat -> e - s = Z.of_nat k * b ->
+  warp_model ts s e k = warp_spec ts s e k.
+Proof.
+  intros ts s e b k Hb Hk Hd. unfold warp_model, warp_spec.
+  rewrite (warp_bin_size_divides s e b k Hk Hd).
+  unfold count_spec_interval. rewrite (warp_equal_bins s e b k Hb Hk Hd).
+  rewrite map_map. cbn [snd]. apply map_ext_in. intros j Hj. apply in_seq in Hj.
+  apply count_if_ext_all. intros t. f_equal.
+  unfold in_bin, warp_bin_of. rewrite Hd.
+  assert (H1 : (s + Z.of_nat j * b <=? t) = (Z.of_nat j * (Z.of_nat k * b) <=? Z.of_nat k * (t - s))).
+  { apply Bool.eq_true_iff_eq. rewrite !Z.leb_le. nia. }
+  assert (H2 : (t <? s + Z.of_nat j * b + b) = (Z.of_nat k * (t - s) <? (Z.of_nat j + 1) * (Z.of_nat k * b))).
+  { apply Bool.eq_true_iff_eq. rewrite !Z.ltb_lt. nia. }
+  rewrite H1, H2. reflexivity.
+Qed.
+Print Assumptions C08_warp_equal_bins_when_divides.
+
+(* ... and FALSE without the divisibility hypothesis: the rounded bin, accumulated, is not (e-s)/k *)
+Theorem C08_warp_equal_bins_refuted : exists ts s e k, sortedZ ts /\ s < e /\ (0 < k)%nat /\
+  length (warp_model ts s e k) = k /\ warp_model ts s e k <> warp_spec ts s e k.
+Proof.
+  exists [20], 0, 20, 3%nat. split; [|split; [|split; [|split]]]; try lia.
+  - vm_compute. intuition congruence.
+  - vm_compute. reflexivity.
+  - vm_compute. congruence.
+Qed.
+Print Assumptions C08_warp_equal_bins_refuted.
+
+Theorem C08_warp_number_of_bins_refuted : exists s e k, s < e /\ (0 < k)%nat /\ length (warp_model [] s e k) <> k.
+Proof. exists 0, 10, 4%nat. split; [lia|split; [lia|]]. vm_compute. congruence. Qed.
+Print Assumptions C08_warp_number_of_bins_refuted.
